@@ -182,6 +182,15 @@ def generate_filter(masks, unmasks, *extra):
     )
 
 
+def _unique_incremental(tokens):
+    """Drop repeated tokens from an incremental line.
+
+    Tokens are applied left to right, so the last occurrence of a token is the
+    one that decides ("x -x x" enables x) and the one that must be kept.
+    """
+    return tuple(reversed(stable_unique(reversed(tuple(tokens)))))
+
+
 def _read_config_file(path):
     """Read all the data files under a given path."""
     try:
@@ -469,19 +478,19 @@ class domain(config_domain):
     def pkg_keywords(self, data, debug=False):
         if debug:
             return tuple(data)
-        return tuple((x[0], stable_unique(x[1])) for x in data)
+        return tuple((x[0], _unique_incremental(x[1])) for x in data)
 
     @load_property("package.accept_keywords", parse_func=restriction_payload_splitter)
     def pkg_accept_keywords(self, data, debug=False):
         if debug:
             return tuple(data)
-        return tuple((x[0], stable_unique(x[1])) for x in data)
+        return tuple((x[0], _unique_incremental(x[1])) for x in data)
 
     @load_property("package.license", parse_func=restriction_payload_splitter)
     def pkg_licenses(self, data, debug=False):
         if debug:
             return tuple(data)
-        return tuple((x[0], stable_unique(x[1])) for x in data)
+        return tuple((x[0], _unique_incremental(x[1])) for x in data)
 
     @load_property("package.use", parse_func=package_use_splitter)
     def pkg_use(self, data, debug=False):
